@@ -76,14 +76,104 @@ C01Cases ==
   \cup { [st |-> Select(<<>>, w, <<>>, <<>>, NoLim), sid |-> "E"] : w \in SmallStr \cup SmallNum }
 
 -----------------------------------------------------------------------------
-StoreOf(sid) == CASE sid = "T" -> StoreT [] sid = "I" -> StoreI [] sid = "F" -> StoreF [] sid = "E" -> <<>>
-                  [] sid = "S40" -> SeqStore(40) [] sid = "S7" -> SeqStore(7) [] OTHER -> <<>>
-StoreIds == {"T", "I", "F", "E", "S40", "S7"}
+(* c10: scalar functions and list / JSON indexing *)
 
-Cases == CASE Mode = "c01" -> C01Cases [] OTHER -> {}
+Comma == <<44>>
+Texts == { <<>>, a, <<65, 98>>, <<65, 66, 67>>, <<97, 44, 98, 44, 99>>, <<49, 50>>, <<45, 51>>, <<49, 46, 53>>, <<120, 32, 121>>, <<48, 55>>, <<49, 101, 51>> }
+Ints  == { AInt(0), AInt(1), AInt(2), AInt(3), AInt(7), AInt(12), ABin("-", AInt(0), AInt(3)) }
+Flts  == { AFlt(1, 1), AFlt(3, 1), AFlt(2, 0), AFlt(1, 2) }
+TArgs == { AStr(t) : t \in Texts }
+RowT  == { AKey, AVal }
+L123  == ACall("list", <<AInt(1), AInt(2), AInt(3)>>)
+Vecs  == { ACall("list", <<AInt(3), AInt(4)>>), ACall("list", <<AInt(0), AInt(0)>>), ACall("list", <<AInt(6), AInt(8)>>),
+           ACall("int_list", <<AInt(4), AInt(3)>>), ACall("float_list", <<AInt(3), AInt(4)>>), ACall("list", <<AInt(1)>>),
+           ACall("list", <<AInt(0), AInt(5)>>), ACall("flist", <<AFlt(3, 0), AFlt(4, 0)>>), ACall("ilist", <<AInt(0), AInt(1)>>) }
+SplitV == Call2("split", AVal, AStr(Comma))
+FuncExprs ==
+  { Call1(f, x) : f \in {"upper", "lower", "strlen", "str", "is_int", "is_float", "int", "float"}, x \in TArgs \cup RowT }
+  \cup { Call1(f, x) : f \in {"str", "strlen", "int", "float", "is_int", "is_float"}, x \in Ints \cup Flts \cup {Call1("int", AVal), Call1("strlen", AKey)} }
+  \cup { Call2("split", x, AStr(sep)) : x \in TArgs \cup RowT, sep \in {Comma, <<32>>, <<98>>, <<44, 98>>} }
+  \cup { Call1("len", Call2("split", x, AStr(Comma))) : x \in TArgs \cup RowT }
+  \cup { AIdx(Call2("split", x, AStr(Comma)), AInt(n)) : x \in {AStr(<<97, 44, 98, 44, 99>>), AVal}, n \in {0, 1, 2} }
+  \cup { ACall("join", <<AStr(sep), x, y>>) : sep \in {Comma, <<>>, <<45, 45>>}, x \in {AStr(a), AKey, AInt(7)}, y \in {AStr(<<>>), AVal, AInt(12)} }
+  \cup { ACall("join", <<AStr(Comma), AIdx(SplitV, AInt(0)), AIdx(SplitV, AInt(1)), AIdx(SplitV, AInt(2))>>) }
+  \cup { L123, Call1("len", L123), AIdx(L123, AInt(0)), AIdx(L123, AInt(1)), AIdx(L123, AInt(2)),
+         ACall("int_list", <<AInt(5), AInt(6)>>), Call1("len", ACall("int_list", <<AInt(5), AInt(6)>>)), AIdx(ACall("ilist", <<AInt(5), AInt(6)>>), AInt(1)),
+         ACall("float_list", <<AFlt(1, 1), AInt(2)>>), Call1("len", ACall("flist", <<AFlt(1, 1), AInt(2)>>)), AIdx(ACall("float_list", <<AFlt(1, 1), AInt(2)>>), AInt(0)),
+         ACall("list", <<AFlt(1, 1), AFlt(5, 1)>>), ACall("list", <<Call1("int", AVal), AInt(1)>>), Call1("len", ACall("list", <<Call1("strlen", AKey)>>)),
+         AIdx(ACall("list", <<Call1("strlen", AKey), AInt(9)>>), AInt(0)) }
+  \cup { Call2(f, x, y) : f \in {"l2_distance", "cosine_distance"}, x \in Vecs, y \in Vecs }
+  \cup { Call2("l2_distance", ACall("list", <<AInt(1), AInt(2), AInt(2)>>), Call2("split", AVal, AStr(Comma))) }
+
+C10Fields == { [st |-> Select(<<F(AKey, ""), F(e, "")>>, All, <<>>, <<>>, NoLim), sid |-> sid] : e \in FuncExprs, sid \in {"T", "V"} }
+FuncPreds == { ABin("=", Call1("upper", AVal), AStr(<<65, 66>>)), ABin(">", Call1("strlen", AVal), AInt(1)), Call1("is_int", AVal), Call1("is_float", AVal),
+               ABin("=", Call1("len", SplitV), AInt(3)), ABin("=", AIdx(SplitV, AInt(1)), AStr(bb)), AIn(AStr(bb), <<AIdx(SplitV, AInt(1))>>),
+               ABin("in", AStr(bb), SplitV), ABin("in", AInt(2), L123), ABin("in", Call1("strlen", AKey), L123),
+               ABin("=", ACall("join", <<AStr(<<45>>), AKey, AVal>>), AStr(<<97, 45>>)), ABin("<", Call2("l2_distance", ACall("list", <<AInt(1), AInt(2), AInt(2)>>), SplitV), AInt(1)),
+               ANot(Call1("is_int", AVal)), ABin("&", Call1("is_int", AVal), ABin(">", Call1("int", AVal), AInt(1))) }
+C10Preds == { [st |-> Select(<<>>, w, <<>>, <<>>, NoLim), sid |-> sid] : w \in FuncPreds, sid \in {"T", "V"} }
+
+\* JSON documents (rendered by the spec, never parsed by it); members in name order; numbers are floats
+JN(n) == VFlt(n, 0)
+J1 == VObj(<<VMem(a, JN(1)), VMem(bb, VStr(<<120>>)), VMem(<<108>>, VList(<<JN(1), JN(2), JN(3)>>)), VMem(<<111>>, VObj(<<VMem(<<112>>, VStr(<<113>>))>>))>>)
+J2 == VObj(<<VMem(a, VStr(<<115>>)), VMem(bb, JN(2))>>)
+J3 == VObj(<<VMem(a, VBool(TRUE)), VMem(<<108>>, VList(<<VStr(<<117>>), VStr(<<118>>)>>))>>)
+J4 == VObj(<<>>)
+J5 == VObj(<<VMem(a, JN(12)), VMem(<<108>>, VList(<<>>)), VMem(<<111>>, VObj(<<VMem(<<112>>, VObj(<<VMem(<<122>>, JN(7))>>))>>))>>)
+J6 == VObj(<<VMem(a, VFlt(5, 1)), VMem(bb, VStr(<<>>)), VMem(<<108>>, VList(<<VList(<<JN(1)>>), VObj(<<VMem(a, JN(0))>>)>>))>>)
+StoreJ == << SPD(<<106, 49>>, J1), SPD(<<106, 50>>, J2), SPD(<<106, 51>>, J3), SPD(<<106, 52>>, J4), SPD(<<106, 53>>, J5), SPD(<<106, 54>>, J6) >>
+JV == Call1("json", AVal)
+JsonExprs == { JV, AIdx(JV, AStr(a)), AIdx(JV, AStr(bb)), AIdx(JV, AStr(<<108>>)), AIdx(AIdx(JV, AStr(<<108>>)), AInt(1)), AIdx(AIdx(JV, AStr(<<108>>)), AInt(0)),
+               AIdx(AIdx(JV, AStr(<<111>>)), AStr(<<112>>)), AIdx(AIdx(AIdx(JV, AStr(<<111>>)), AStr(<<112>>)), AStr(<<122>>)), AIdx(JV, AStr(<<111>>)),
+               AIdx(AIdx(AIdx(JV, AStr(<<108>>)), AInt(1)), AStr(a)) }
+C10Json == { [st |-> Select(<<F(AKey, ""), F(e, "")>>, ABin("^=", AKey, AStr(<<106>>)), <<>>, <<>>, NoLim), sid |-> "J"] : e \in JsonExprs }
+           \cup { [st |-> Select(<<>>, w, <<>>, <<>>, NoLim), sid |-> "J"] :
+                     w \in { ABin("=", AIdx(JV, AStr(bb)), AStr(<<120>>)), ABin("^=", AIdx(AIdx(JV, AStr(<<111>>)), AStr(<<112>>)), AStr(<<113>>)) } }
+C10Cases == C10Fields \cup C10Preds \cup C10Json
+
+\* values for the function families: comma lists, numbers, mixed case
+StoreV == << SP(a, <<97, 44, 98, 44, 99>>), SP(ab, <<49, 44, 50, 44, 50>>), SP(abc, <<55>>), SP(bb, <<65, 98>>), SP(ba, <<49, 46, 53>>), SP(c1, <<>>), SP(c2, <<45, 51>>) >>
+
+-----------------------------------------------------------------------------
+(* c04: expressions with constant sub-trees (folding, Boolean simplification, re-association) *)
+
+KPool == IF Scale >= 2 THEN { AInt(0), AInt(1), AInt(2), AInt(3), AFlt(1, 1), AFlt(3, 1), AFlt(2, 0) }
+         ELSE { AInt(1), AInt(2), AInt(3), AFlt(1, 1), AFlt(3, 1), AFlt(2, 0) }
+KSmall == { AInt(2), AInt(3), AFlt(1, 1), AFlt(2, 0) }
+Ar == {"+", "-", "*", "/"}
+K1 == { ABin(op, x, y) : op \in Ar, x \in KPool, y \in KPool }
+K2 == { ABin(op2, ABin(op1, x, y), z) : op1 \in Ar, op2 \in Ar, x \in KSmall, y \in KSmall, z \in KSmall }
+      \cup { ABin(op2, z, ABin(op1, x, y)) : op1 \in Ar, op2 \in Ar, x \in KSmall, y \in KSmall, z \in KSmall }
+RowNum == { Call1("int", AVal), Call1("float", AVal), Call1("strlen", AKey) }
+\* (x op c1) op c2 : the re-association rule, and the shapes next to it that must NOT be re-associated
+Reassoc == { ABin(op2, ABin(op1, x, y), z) : op1 \in Ar, op2 \in Ar, x \in RowNum, y \in KSmall, z \in KSmall }
+           \cup { ABin(op2, ABin(op1, y, x), z) : op1 \in {"+", "*"}, op2 \in {"+", "*"}, x \in RowNum, y \in KSmall, z \in KSmall }
+           \cup { ABin(op, ABin(op, ABin(op, x, y), z), y) : op \in {"+", "*"}, x \in RowNum, y \in KSmall, z \in KSmall }
+KStr == { ABin("+", AStr(a), AStr(bb)), ABin("+", ABin("+", AKey, AStr(a)), AStr(bb)), ABin("+", AStr(a), ABin("+", AStr(bb), AKey)), Call1("upper", ABin("+", AStr(a), AStr(bb))),
+          Call1("strlen", AStr(abc)), ABin("+", Call1("strlen", AStr(abc)), Call1("int", AVal)), Call1("str", ABin("+", AInt(1), AInt(2))), Call1("int", AStr(<<52, 50>>)),
+          Call1("float", AStr(<<49, 46, 53>>)), ABin("*", Call1("float", AStr(<<49, 46, 53>>)), AInt(2)), Call1("lower", Call1("upper", AStr(a))),
+          ACall("join", <<AStr(Comma), AStr(a), AInt(1)>>), Call1("len", L123), Call1("is_int", AStr(<<49>>)) }
+C04Fields == { [st |-> Select(<<F(AKey, ""), F(e, "")>>, All, <<>>, <<>>, NoLim), sid |-> "F"] : e \in K1 \cup K2 \cup Reassoc \cup KStr }
+CT == ABin("=", AInt(1), AInt(1))
+CF == ABin(">", AInt(1), AInt(2))
+PK == ABin("^=", AKey, AStr(a))
+BoolSimp == { ABin(op, x, y) : op \in {"&", "|"}, x \in {CT, CF, PK}, y \in {CT, CF, PK} }
+            \cup { ABin("&", ABin("|", CF, PK), CT), ABin("|", ABin("&", CT, PK), CF), ANot(CT), ABin("&", ANot(CF), PK),
+                   ABin("=", ABin("+", AStr(a), AStr(bb)), AKey), ABin("<", Call1("strlen", AKey), ABin("+", AInt(1), AInt(1))) }
+C04Preds == { [st |-> Select(<<>>, ABin(op, l, k), <<>>, <<>>, NoLim), sid |-> "F"] : op \in {">", "=", "<="}, l \in {Call1("float", AVal)}, k \in K1 }
+            \cup { [st |-> Select(<<>>, w, <<>>, <<>>, NoLim), sid |-> "F"] : w \in BoolSimp }
+C04Cases == C04Fields \cup C04Preds
+
+-----------------------------------------------------------------------------
+StoreOf(sid) == CASE sid = "T" -> StoreT [] sid = "I" -> StoreI [] sid = "F" -> StoreF [] sid = "E" -> <<>>
+                  [] sid = "J" -> StoreJ [] sid = "V" -> StoreV [] sid = "S40" -> SeqStore(40) [] sid = "S7" -> SeqStore(7) [] OTHER -> <<>>
+StoreIds == {"T", "I", "F", "E", "J", "V", "S40", "S7"}
+
+Cases == CASE Mode = "c01" -> C01Cases [] Mode = "c10" -> C10Cases [] Mode = "c04" -> C04Cases [] OTHER -> {}
 
 \* enumeration is split so that TLC's workers share it: Init picks a partition, Next a case of it
-PartOf(c) == <<c.sid, c.st.where.k, c.st.where.op, Len(c.st.fields), Len(c.st.order), c.st.lim.s>>
+FieldTag(c) == IF Len(c.st.fields) >= 2 THEN <<c.st.fields[2].e.k, c.st.fields[2].e.op, Len(c.st.fields[2].e.a)>> ELSE <<>>
+PartOf(c) == <<c.sid, c.st.where.k, c.st.where.op, Len(c.st.fields), Len(c.st.order), c.st.lim.s, FieldTag(c)>>
 VARIABLES cs, stage
 vars == <<cs, stage>>
 Init == stage = 0 /\ cs \in {[part |-> PartOf(c)] : c \in Cases}
